@@ -1906,6 +1906,33 @@ func (b *Block) setExportedVars() (err error) {
 	return
 }
 
+// Validate checks the part of the block invariant that UnmarshalBinary does not, because it
+// costs a pass over all voxels: every packed value of a sub-block must be smaller than that
+// sub-block's number of labels, else lookups run past the sub-block's indices.  Blocks received
+// from clients should be validated before they are stored.
+func (b *Block) Validate() error {
+	if len(b.Labels) <= 1 {
+		return nil
+	}
+	var bitpos uint32
+	for sb, numSBLabels := range b.NumSBLabels {
+		if numSBLabels < 2 {
+			continue
+		}
+		bits := bitsFor(numSBLabels)
+		for i := 0; i < SubBlockSize*SubBlockSize*SubBlockSize; i++ {
+			if index := getPackedValue(b.SBValues, bitpos, bits); index >= numSBLabels {
+				return fmt.Errorf("voxel %d of sub-block %d has value %d but the sub-block has only %d labels", i, sb, index, numSBLabels)
+			}
+			bitpos += bits
+		}
+		if bitpos%8 != 0 {
+			bitpos += 8 - (bitpos % 8)
+		}
+	}
+	return nil
+}
+
 // immutable representation of (y,z) coordinate, suitable for maps.
 type yzString string
 
